@@ -38,6 +38,37 @@ def short(path):
     return M.fn_key(path)
 
 
+_KEY_RE = re.compile(r"^((?:[^:]|::)+):(.*)$")
+
+
+class Reviewed:
+    """Lookup of reviewed-safe entries.  Exact key first.  If the code of a reviewed site was moved into another function (helper
+    extraction / inlining: the site's `what` - panic message, operand description - is unchanged, only the function part of the key is
+    new) the entry is found by its `what`, provided it is unambiguous: exactly one reviewed entry carries that `what`, and the function it
+    names no longer has an obligation with it (so the site moved, it was not duplicated)."""
+
+    def __init__(self, R, live_whats):
+        self.R = R
+        self.live = live_whats          # fn -> set(what) of the obligations that exist in this tree
+        self.by_what = {}
+        for k in R.reviewed:
+            m = _KEY_RE.match(k)
+            if m:
+                self.by_what.setdefault(m.group(2), []).append((m.group(1), k))
+
+    def get(self, key):
+        if key in self.R.reviewed:
+            return key
+        m = _KEY_RE.match(key)
+        if not m:
+            return None
+        fn, what = m.group(1), re.sub(r"#\d+$", "", m.group(2))
+        cands = self.by_what.get(what, [])
+        if len(cands) == 1 and cands[0][0] != fn and what not in self.live.get(cands[0][0], set()):
+            return cands[0][1]
+        return None
+
+
 def block_state(f, bi):
     st = f.in_states[bi]
     if st is None:
@@ -100,6 +131,27 @@ def run(F, R, tier):
         seen_keys[base] = n
         return base if n == 1 else "%s#%d" % (base, n)
 
+    # which (function, what) panic / assert obligations exist in this tree (for the moved-site lookup of reviewed entries)
+    live_whats = {}
+    for f in P.fns.values():
+        fn = short(f.path)
+        for bi, b in enumerate(f.blocks):
+            if b["cleanup"]:
+                continue
+            t = b["t"]
+            if t["k"] == "assert" and not t["ak"].startswith("ptr"):
+                live_whats.setdefault(fn, set()).add("%s:%s" % (t["ak"], " ".join(f.stable_describe(o) for o in t["ops"])))
+            elif t["k"] == "call":
+                for ce in f.calls.get(bi, []):
+                    if ce["key"] in P.fns:
+                        continue
+                    info = P.callees.get(ce["key"]) or {}
+                    path = info.get("path") or ce.get("full") or ce["key"]
+                    cls = M.classify_callee(path)
+                    if cls and cls[0] in ("panic", "constarg"):
+                        live_whats.setdefault(fn, set()).add(panic_what(f, t, M.strip_generics(path).rsplit("::", 1)[-1], path))
+    RV = Reviewed(R, live_whats)
+
     # --- per function obligations, in a deterministic order (by span)
     sink_params = {}          # fn key -> set of param indices that reach an allocation sink unchanged
     alloc_sites = []          # (f, bi, callee path, arg operand)
@@ -131,9 +183,10 @@ def run(F, R, tier):
                     counts["assert_wide"] += 1
                 elif ok:
                     counts["assert_interval"] += 1
-                if not ok and key in R.reviewed:
-                    R.used_reviewed.append({"key": key, "reason": R.reviewed[key]["reason"]})
-                    ok, why = True, "reviewed-safe: " + R.reviewed[key]["reason"]
+                rk = RV.get(key) if not ok else None
+                if rk:
+                    R.used_reviewed.append({"key": rk, "reason": R.reviewed[rk]["reason"]})
+                    ok, why = True, "reviewed-safe: " + R.reviewed[rk]["reason"]
                 R.inst("R16.1", key, ok, sp=norm_sp(t["sp"]),
                        detail=("discharged: " + why) if ok else "cannot exclude: %s with operands %s" % (ak, ", ".join(
                            "%s ∈ %s" % (f.describe(o), M.show(v)) for o, v in zip(t["ops"], vals))))
@@ -173,9 +226,10 @@ def run(F, R, tier):
                             v = f.operand(st, t["args"][-1] if name in ("from_str_radix",) else t["args"][idx])[0]
                             if v[0] is not None and v[1] is not None and v[0] >= lo and (hi is None or v[1] <= hi):
                                 ok, why = True, "argument %s within the non-panicking range" % M.show(v)
-                        if not ok and key in R.reviewed:
-                            R.used_reviewed.append({"key": key, "reason": R.reviewed[key]["reason"]})
-                            ok, why = True, "reviewed-safe: " + R.reviewed[key]["reason"]
+                        rk = RV.get(key) if not ok else None
+                        if rk:
+                            R.used_reviewed.append({"key": rk, "reason": R.reviewed[rk]["reason"]})
+                            ok, why = True, "reviewed-safe: " + R.reviewed[rk]["reason"]
                         R.inst("R16.2", key, ok, sp=norm_sp(t["sp"]), detail=why)
                     elif cls[0] == "alloc":
                         if st is None:
